@@ -23,6 +23,7 @@ RULE = ("Hypothesis: 1-4 integer-tick well-formed single-channel sequences (arbi
 RULE = RULE + " Round e: signature values from a two-value pool per case (A, B, A across sequences)."
 RULE = RULE + " Round h: Sequence.save, objects saved before, objects saved / edited in place / saved again."
 RULE = RULE + " Round i: the file parsed once and loaded twice from the parsed object."
+RULE = RULE + " Round j: integral ticks stored as floats (after scale(2), scale(0.5))."
 ASSUMPTIONS = ["mido's MIDI file writer/reader is trusted", "trailing rests are not stored by the writer and not part of the statement"]
 TIERS = {"quick": dict(shards=8, examples=400, alt_ppqn=[480], alt_shards=2),
          "thorough": dict(shards=16, examples=5000, alt_ppqn=[480, 7, 1000], alt_shards=2)}
@@ -64,7 +65,7 @@ def _case(draw):
         spec["pad"] = draw(st.one_of(st.none(), st.just(end + draw(st.integers(0, 30)))))
         seqs.append(spec)
     return {"seqs": seqs, "target": draw(st.integers(0, k - 1)), "load": draw(st.sampled_from(["path", "path", "path", "parsed_twice"])),
-            "how": draw(st.sampled_from(["sequences_save", "sequences_save", "saved_before", "single_save", "saved_then_edited"]))}
+            "how": draw(st.sampled_from(["sequences_save", "sequences_save", "saved_before", "single_save", "saved_then_edited", "after_scale_down"]))}
 
 
 def strategy(params, shard, nshards):
@@ -100,6 +101,23 @@ def check(case):
                 contents.append((ev, dur, ns))
         except Exception as e:
             out.inconclusive = f"first-save-or-edit-raised:{type(e).__name__}"
+            return out
+    if case.get("how") == "after_scale_down":
+        # the library itself leaves integral tick values stored as floats (12.0) after scale(2) + scale(0.5); such a sequence is
+        # still integer-tick music and must be written like any other
+        out.label("save:after_scale_down")
+        try:
+            contents = []
+            for s in seqs:
+                s.scale(2, quantise_afterwards=False)
+                s.scale(0.5, quantise_afterwards=False)
+                ev, dur = O.seq_events(s)
+                ns, an = O.notes(ev)
+                if an:
+                    raise ValueError("scaled content ill-formed")
+                contents.append((ev, dur, ns))
+        except Exception as e:
+            out.inconclusive = f"scale-down-raised:{type(e).__name__}"
             return out
     union = [e for c in contents for e in c[0]]
     ticks_all = [e[0] for e in union if e[1] in (O.NOTE_ON, O.NOTE_OFF, O.TS, O.KS)]
